@@ -179,6 +179,8 @@ struct Shared {
     full_seen: AtomicU64,
     threads_done: AtomicU32,
     removed: AtomicBool,
+    /// no-receiver family: every consumer unsubscribes as soon as it sees this (simultaneous leave)
+    leave_now: AtomicBool,
 }
 
 impl Shared {
@@ -374,6 +376,13 @@ fn run_consumer(mut t: ConsumerTask, sh: &Shared, rng: &mut Rng) -> TaskResult {
     let mut idle = 0u64;
     let allow_blocking = t.until_end;
     while !active.is_empty() {
+        if sh.leave_now.load(SeqCst) {
+            // all consumers of all streams leave at (nearly) the same instant, through unsubscribe()
+            for r in active.drain(..) {
+                r.unsubscribe();
+            }
+            break;
+        }
         let i = idx % active.len();
         idx += 1;
         let stop_before = sh.stop.load(SeqCst);
@@ -862,6 +871,7 @@ pub fn run_once(cfg: &ConcCfg, shard: &mut Shard, keep_sample: bool) -> RunOutco
         full_seen: AtomicU64::new(0),
         threads_done: AtomicU32::new(0),
         removed: AtomicBool::new(false),
+        leave_now: AtomicBool::new(false),
     });
 
     // ---- tasks
@@ -972,6 +982,20 @@ pub fn run_once(cfg: &ConcCfg, shard: &mut Shard, keep_sample: bool) -> RunOutco
         joins.push(j);
     }
     shared.go.store(true, SeqCst);
+    if cfg.family == Family::NoReceiver && cfg.seed % 2 == 0 {
+        let target = 10 + rng.below((cfg.msgs as u64 * cfg.producers as u64).max(20));
+        let t0 = Instant::now();
+        while hist::clock_peek() < target && shared.threads_done.load(SeqCst) < nthreads {
+            std::hint::spin_loop();
+            if !cfg!(miri) && t0.elapsed() > Duration::from_secs(2) {
+                break;
+            }
+            if cfg!(miri) {
+                std::thread::yield_now();
+            }
+        }
+        shared.leave_now.store(true, SeqCst);
+    }
     if cfg.family == Family::Quiesce {
         // stop at a random logical time
         let target = 20 + rng.below((cfg.msgs as u64 * cfg.producers as u64 * 3).max(30));
@@ -1094,6 +1118,7 @@ pub fn run_once(cfg: &ConcCfg, shard: &mut Shard, keep_sample: bool) -> RunOutco
     checkers::check_c03(&c, &ix);
     checkers::check_c07(&c, &ix);
     checkers::check_c11_bool(&c, &ix);
+    checkers::check_c11_group(&c, &ix);
     checkers::check_c13(&c, &ix);
     if gave_up {
         // a producer was refused max_retries times in a row while consumers were running
